@@ -6,11 +6,20 @@ namespace ccl::semantic {
 
 namespace {
 
-//! Names mentioned in definitions that are not aliases of any constituent
-[[nodiscard]] std::unordered_set<std::string> UnresolvedGlobals(const Schema& schema) {
+//! Names that a renaming would translate: mentions in definition and convention, entity references in texts
+[[nodiscard]] std::unordered_set<std::string> MentionedNames(const RSConcept& cst, const TextConcept& text) {
+  auto result = rslang::ExtractUGlobals(cst.definition);
+  result.merge(rslang::ExtractUGlobals(cst.convention));
+  result.merge(text.term.Text().Referals());
+  result.merge(text.definition.Referals());
+  return result;
+}
+
+//! Names mentioned by constituents that are not aliases of any constituent
+[[nodiscard]] std::unordered_set<std::string> UnresolvedGlobals(const Schema& schema, const Thesaurus& thesaurus) {
   std::unordered_set<std::string> result{};
   for (const auto& cst : schema) {
-    for (const auto& name : rslang::ExtractUGlobals(cst.definition)) {
+    for (const auto& name : MentionedNames(cst, thesaurus.At(cst.uid))) {
       if (!schema.FindAlias(name).has_value()) {
         result.emplace(name);
       }
@@ -83,7 +92,7 @@ bool RSCore::SetAliasFor(const EntityUID target, const std::string& newValue, co
 void RSCore::ResetAliases() {
   StrSubstitutes substitutes{};
   identifiers.Clear();
-  const auto unresolved = UnresolvedGlobals(schema);
+  const auto unresolved = UnresolvedGlobals(schema, thesaurus);
   for (const auto& name : unresolved) { // Note: a new alias should not give a meaning to a mention that has none
     identifiers.ReserveAlias(name);
   }
@@ -192,13 +201,13 @@ VectorOfEntities RSCore::InsertCopy(const VectorOfEntities& input, const RSCore&
   VectorOfEntities result{};
   StrSubstitutes replMap{};
   // Note: a new alias should not give a meaning to a mention that has none - neither here nor in the copied group
-  auto unresolved = UnresolvedGlobals(schema);
+  auto unresolved = UnresolvedGlobals(schema, thesaurus);
   std::unordered_set<std::string> incoming{};
   for (const auto uid : input) {
     incoming.emplace(source.GetRS(uid).alias);
   }
   for (const auto uid : input) {
-    for (const auto& name : rslang::ExtractUGlobals(source.GetRS(uid).definition)) {
+    for (const auto& name : MentionedNames(source.GetRS(uid), source.GetText(uid))) {
       if (!incoming.contains(name) && !schema.FindAlias(name).has_value()) {
         unresolved.emplace(name);
       }
